@@ -390,6 +390,7 @@ def ntfsOf (c : Cfg) (s : State) : List Ev → List Ntfn
 /-- the filter-header writer's contract: a write that succeeds starts right above the filter tip -/
 def alignedEv (s : State) : Ev → Prop
   | .cfWrite stop n true => ∀ endH, idxOf s.log stop = some endH → n ≠ 0 → n - 1 ≤ endH → endH = s.fst + n
+  | .importReset _ nf => nf = 0      -- imported filter headers are not announced: not a moment between events
   | _ => True
 
 def alignedRun (c : Cfg) (s : State) : List Ev → Prop
@@ -446,6 +447,33 @@ theorem step_trace (c : Cfg) (s : State) (e : Ev) (hf : FInv s) (ha : alignedEv 
           · rfl
           · split <;> rfl
     simp only [step, hn]; exact ⟨rfl, hf⟩
+  | headersFailWrite p hs =>
+    simp only [step, handleHeadersFailWrite]
+    split
+    · exact ⟨rfl, ⟨hf.F, hf.G⟩⟩
+    · exact C19_replay_headers c s p hs hf
+  | importReset blocks nf =>
+    -- an import appends blocks above the committed ones and may commit further filter headers
+    -- WITHOUT announcing them: the subscriber's view is no longer the committed chain unless no
+    -- filter header was imported (`alignedEv` demands that)
+    simp only [step, importReset]
+    have hnf : nf = 0 := ha
+    subst hnf
+    have hF := hf.F
+    have hfst : (if s.fst + 0 ≤ tipHeight (if chainOk c s.log blocks = true then s.log ++ blocks else s.log)
+        then s.fst + 0 else s.fst) = s.fst := by
+      generalize tipHeight (if chainOk c s.log blocks = true then s.log ++ blocks else s.log) = T
+      by_cases h : s.fst + 0 ≤ T <;> simp [h]
+    simp only [hfst]
+    refine ⟨?_, ⟨?_, rfl⟩⟩
+    · simp only [committedS, replay, List.foldl_nil]
+      split
+      · exact (committedOf_append _ _ _ hF).symm
+      · rfl
+    · show s.fst < (if chainOk c s.log blocks = true then s.log ++ blocks else s.log).length
+      split
+      · simp; omega
+      · exact hF
 
 /-- **Events after any moment, every event list**: replaying everything the block manager emits
 from a moment on, on the chain committed at that moment, gives the committed chain now. -/
@@ -486,6 +514,21 @@ theorem finv_step (c : Cfg) (s : State) (e : Ev) (hf : FInv s) : FInv (step c s 
   | inv p id => exact (step_trace c s (.inv p id) hf trivial).2
   | headers p hs => exact (step_trace c s (.headers p hs) hf trivial).2
   | backlog k => exact (step_trace c s (.backlog k) hf trivial).2
+  | headersFailWrite p hs => exact (step_trace c s (.headersFailWrite p hs) hf trivial).2
+  | importReset blocks nf =>
+    simp only [step, importReset]
+    refine ⟨?_, rfl⟩
+    show (if s.fst + nf ≤ tipHeight (if chainOk c s.log blocks = true then s.log ++ blocks else s.log) then s.fst + nf else s.fst)
+      < (if chainOk c s.log blocks = true then s.log ++ blocks else s.log).length
+    have hF := hf.F
+    have hlen : s.log.length ≤ (if chainOk c s.log blocks = true then s.log ++ blocks else s.log).length := by
+      split
+      · simp
+      · exact Nat.le_refl _
+    generalize (if chainOk c s.log blocks = true then s.log ++ blocks else s.log) = L at hlen ⊢
+    by_cases h : s.fst + nf ≤ tipHeight L
+    · rw [if_pos h]; simp only [tipHeight] at h; omega
+    · rw [if_neg h]; omega
 
 theorem finv_init (c : Cfg) (peers : List Peer) : FInv (init c peers) := ⟨by simp [init], rfl⟩
 
@@ -807,12 +850,51 @@ theorem C19_buffered_subscriber_counterexample :
     ((replayStrict [0, 1] bl).bind (fun v => replayStrict v [])) = some [0, 1, 4, 5] := by
   decide
 
+/-! ### a block is announced as disconnected only after it was removed -/
+
+theorem rollBack_len_le (k fuel : Nat) (log : List Nat) (fst : Nat) (ft : Node) (out : List Ntfn) :
+    (rollBack k fuel log fst ft out).1.length ≤ log.length := by
+  induction fuel generalizing log fst ft out with
+  | zero => simp [rollBack]
+  | succ n ih =>
+    by_cases hgt : tipHeight log > k
+    · rw [C19_disconnected_step k n log fst ft out hgt]
+      have := ih log.dropLast (if tipHeight log ≤ fst then tipHeight log - 1 else fst)
+        (if tipHeight log ≤ fst then ⟨tipId log.dropLast, tipHeight log - 1⟩ else ft)
+        (out ++ [.disc (tipId log) (tipHeight log) (tipId log.dropLast)])
+      simp at this; omega
+    · simp [rollBack, hgt]
+
+/-- **Remove, then notify - every rollback**: each disconnected event of `rollBackToHeight` is for a
+height that the block header store no longer reaches when the rollback is over, and (fold
+invariant) was emitted when the store had already been cut below it. -/
+theorem C19_disconnected_after_removal (k fuel : Nat) (log : List Nat) (fst : Nat) (ft : Node) (e : Ntfn)
+    (he : e ∈ (rollBack k fuel log fst ft []).2.2.2) :
+    ∃ id h nt, e = .disc id h nt ∧ (rollBack k fuel log fst ft []).1.length ≤ h ∧ h < log.length := by
+  induction fuel generalizing log fst ft with
+  | zero => simp [rollBack] at he
+  | succ n ih =>
+    by_cases hgt : tipHeight log > k
+    · rw [C19_disconnected_step k n log fst ft [] hgt, rollBack_acc] at he ⊢
+      simp only [List.nil_append, List.singleton_append, List.mem_cons] at he ⊢
+      have hth : tipHeight log = log.length - 1 := rfl
+      have hl2 : 2 ≤ log.length := by omega
+      rcases he with rfl | he
+      · refine ⟨_, _, _, rfl, ?_, by omega⟩
+        have := rollBack_len_le k n log.dropLast (if tipHeight log ≤ fst then tipHeight log - 1 else fst)
+          (if tipHeight log ≤ fst then ⟨tipId log.dropLast, tipHeight log - 1⟩ else ft) []
+        simp at this; omega
+      · obtain ⟨id, h, nt, e1, e2, e3⟩ := ih log.dropLast _ _ he
+        exact ⟨id, h, nt, e1, e2, by simp at e3; omega⟩
+    · simp [rollBack, hgt] at he
+
 /-- the statement order regenerated from blockmanager.go on this run: `writeCFHeadersMsg` writes the
 store, then raises `filterHeaderTip(+Hash)` under its mutex, then notifies; `rollBackToHeight`
 lowers the in-memory tip with the store; `blockNtfnChan` is made without a capacity (rendezvous) -/
 theorem C19_source_facts :
     Gen.BlockMgr.cfWriteBeforeNotify = true ∧ Gen.BlockMgr.cfTipBeforeNotify = true ∧
-    Gen.BlockMgr.rollbackLowersFilterTip = true ∧ Gen.BlockMgr.blockNtfnChanUnbuffered = true := by decide
+    Gen.BlockMgr.rollbackLowersFilterTip = true ∧ Gen.BlockMgr.blockNtfnChanUnbuffered = true ∧
+    Gen.BlockMgr.rollbackRemovesBeforeNotify = true := by decide
 
 /-! Non-vacuity -/
 example : (cfWrite { log := [0, 1, 2, 3] } 2 2 true).2.ntf = [.conn 1 1 2, .conn 2 2 2] := by decide
